@@ -687,6 +687,8 @@ def families(tier, seed):
     fams.append(Family("algebra-binary", Listed(_algebra_cases(OPERANDS, 3, 5)), ex_algebra,
                        expect=("union-is-or", "intersection-is-and", "subtraction-is-first-and-not-others", "difference-is-xor",
                                "difference-is-union-minus-intersection", "inputs-unmodified", "result-in-unit-range")))
+    from ..engine import with_array_layouts
+    fams.append(with_array_layouts(fams[-1]))   # algebra-binary with Fortran-ordered / strided array operands
     fams.append(Family("algebra-soft", Listed(_algebra_cases(SOFT_OPERANDS, 3 if quick else 4, 4)), make_ex_soft_algebra(_levels(seed)),
                        expect=("inputs-unmodified", "result-in-unit-range")))
     return fams
